@@ -81,3 +81,51 @@ fn c15_authorize_flags() {
     kani::cover!(p_set && p_val);
     core::mem::forget(c);
 }
+
+// @h props=C15,C17 tier=quick cap=900 desc="segment boundaries: grants over multi-character segments (ab/#, ab, ab/?, ?/ab) against requests whose segment has the granted one as a proper string prefix or is a prefix of it (abc, a, abc/#, ...), request chosen by the solver: containment is decided per SEGMENT, never per character" bounds="4 grants; 27 requests; segments of <= 3 characters"
+#[kani::proof]
+#[kani::unwind(6)]
+fn c15_contain_segment_boundaries() {
+    let sel: u8 = kani::any();
+    kani::assume(sel < 27);
+    macro_rules! no {
+        ($g:literal, $r:literal) => {
+            assert!(!pattern_matches($g, $r), "C15: a request that reaches keys in a SIBLING segment (one that merely starts with, or is a prefix of, the granted segment) must not be authorized")
+        };
+    }
+    macro_rules! yes {
+        ($g:literal, $r:literal) => {
+            assert!(pattern_matches($g, $r), "C15: a request inside the granted subtree is authorized")
+        };
+    }
+    match sel {
+        0 => no!("ab/#", "abc"),
+        1 => no!("ab/#", "abc/x"),
+        2 => no!("ab/#", "abc/#"),
+        3 => no!("ab/#", "abc/?"),
+        4 => no!("ab/#", "a"),
+        5 => no!("ab/#", "a/b"),
+        6 => no!("ab/#", "a/#"),
+        7 => no!("ab/#", "ab2"),
+        8 => yes!("ab/#", "ab/c"),
+        9 => yes!("ab/#", "ab/c/#"),
+        10 => yes!("ab/#", "ab/?"),
+        11 => no!("ab", "abc"),
+        12 => no!("ab", "a"),
+        13 => no!("ab", "ab/c"),
+        14 => no!("ab", "abc/#"),
+        15 => yes!("ab", "ab"),
+        16 => no!("ab/?", "abc/x"),
+        17 => no!("ab/?", "a/x"),
+        18 => no!("ab/?", "ab/x/y"),
+        19 => yes!("ab/?", "ab/x"),
+        20 => yes!("ab/?", "ab/xy"),
+        21 => no!("?/ab", "x/abc"),
+        22 => no!("?/ab", "x/a"),
+        23 => yes!("?/ab", "x/ab"),
+        24 => no!("a/ab/#", "a/abc/x"),
+        25 => no!("a/ab/#", "a/a/x"),
+        _ => yes!("a/ab/#", "a/ab/x"),
+    }
+    kani::cover!(sel == 26);
+}
